@@ -74,6 +74,13 @@ def gen_cases(tier, seed):
         s = env.seed_for(seed, ID, tier, "retry_shared", i)
         r = random.Random(env.seed_for(s, "descriptor"))
         out.append({"seed": s, "mode": "retry_shared", "n": r.randint(2, 7), "W": r.choice([1, 2, 4]), "sched": r.choice(["default", "random"]), "attempts": r.choice([2, 3, 4])})
+    # "at most k + max_workers calls fail" for every preemption of the worker whose failure crosses the limit (vmon/preempt.py): it is held at
+    # every instruction of its failure bookkeeping while a dozen more failing calls are ready
+    combos = [(me, W, sc) for me in (0, 1, 2, 5) for W in (2, 3, 4) for sc in ("default", "random")]
+    if tier == "quick":
+        combos = [c_ for j, c_ in enumerate(combos) if j % 4 == seed % 4]
+    for me, W, sc in combos:
+        out.append({"seed": env.seed_for(seed, ID, tier, "errlimit", me, W, sc), "mode": "preempt_errlimit", "max_errors": me, "W": W, "sched": sc, "n": 12, "ncalls": 12})
     return out
 
 
@@ -231,6 +238,10 @@ def custom_retry(n, log):
 
 def run_case(desc):
     mode = desc["mode"]
+    if mode == "preempt_errlimit":
+        from vmon import preempt
+
+        return preempt.enumerate_fail_limit(desc)
     if mode == "retry_shared":
         return run_retry_shared(desc)
     if mode == "retry_callables":
@@ -449,6 +460,8 @@ def finalize(agg, tier):
         reasons.append(f"only {c['states_with_ge_W_ready']} quiescent states with >= max_workers ready calls were reached")
     if c["quiescent_asserts"] < 200:
         reasons.append("fewer than 200 quiescent-state assertions evaluated")
+    if c["preempt_errlimit_holds_others_went_on"] < 50:
+        reasons.append("error-limit preemption: fewer than 50 holds of the limit-crossing worker during which other calls went on failing")
     if c["runs_w1_exact_checked"] < 10 or c["runs_none_checked"] < 10:
         reasons.append("too few max_errors cases")
     return reasons
